@@ -104,7 +104,14 @@ func registerRoute(router *server.Router, route *ast.Route, interp *interpreter.
 
 // registerCompiledRoute registers a compiled route with the router
 func registerCompiledRoute(router *server.Router, route *ast.Route, bytecode []byte, wsHub *websocket.Hub) error {
-	handler := createCompiledRouteHandler(route, bytecode, wsHub)
+	return registerCompiledRouteWithTypes(router, route, bytecode, wsHub, nil)
+}
+
+// registerCompiledRouteWithTypes registers a compiled route that validates
+// request bodies against typeDefs, the type definitions of the module the route
+// was compiled from (nil: the package-level table).
+func registerCompiledRouteWithTypes(router *server.Router, route *ast.Route, bytecode []byte, wsHub *websocket.Hub, typeDefs map[string]ast.TypeDef) error {
+	handler := createCompiledRouteHandlerWithTypes(route, bytecode, wsHub, typeDefs)
 
 	serverRoute := &server.Route{
 		Method:      convertHTTPMethod(route.Method),
@@ -123,6 +130,16 @@ const maxCompiledRouteSteps = 50_000_000
 
 // createCompiledRouteHandler creates an HTTP handler that executes compiled bytecode
 func createCompiledRouteHandler(route *ast.Route, bytecode []byte, wsHub *websocket.Hub) server.RouteHandler {
+	return createCompiledRouteHandlerWithTypes(route, bytecode, wsHub, nil)
+}
+
+// createCompiledRouteHandlerWithTypes is createCompiledRouteHandler with the
+// type definitions of the route's own module. A server keeps validating
+// against the module it was built from: under `glyph dev` a later edit that
+// fails to load has already been through setupRoutes, and with one
+// package-level table the running server then checked request bodies against
+// the types of the file that did not load.
+func createCompiledRouteHandlerWithTypes(route *ast.Route, bytecode []byte, wsHub *websocket.Hub, typeDefs map[string]ast.TypeDef) server.RouteHandler {
 	return func(ctx *server.Context) error {
 		// Create VM instance
 		vmInstance := vm.NewVM()
@@ -202,7 +219,7 @@ func createCompiledRouteHandler(route *ast.Route, bytecode []byte, wsHub *websoc
 					// interpreter path does. Without this a compiled route
 					// accepts any body at all: `< input: NewUser` was enforced
 					// only when a provider injection forced interpreter mode.
-					if err := validateCompiledInput(route, bodyMap); err != nil {
+					if err := validateCompiledInputWithTypes(route, bodyMap, typeDefs); err != nil {
 						ctx.Request.Body.Close()
 						return sendClientError(ctx, err.Error())
 					}
@@ -792,16 +809,21 @@ func newMongoDBHandler() interface{} {
 // any request is served.
 var compiledTypeDefs = map[string]ast.TypeDef{}
 
-// setCompiledTypeDefs records the module's types so compiled routes can
-// validate request bodies against a declared input type.
-func setCompiledTypeDefs(module *ast.Module) {
+// moduleTypeDefs collects the type definitions a module declares.
+func moduleTypeDefs(module *ast.Module) map[string]ast.TypeDef {
 	defs := make(map[string]ast.TypeDef)
 	for _, item := range module.Items {
 		if typeDef, ok := item.(*ast.TypeDef); ok {
 			defs[typeDef.Name] = *typeDef
 		}
 	}
-	compiledTypeDefs = defs
+	return defs
+}
+
+// setCompiledTypeDefs records the module's types so compiled routes can
+// validate request bodies against a declared input type.
+func setCompiledTypeDefs(module *ast.Module) {
+	compiledTypeDefs = moduleTypeDefs(module)
 }
 
 // validateCompiledInput checks a decoded request body against the route's
@@ -809,6 +831,15 @@ func setCompiledTypeDefs(module *ast.Module) {
 // interpreter.go:558. Fields carrying a default are not treated as required,
 // so this does not reject bodies the interpreter would accept.
 func validateCompiledInput(route *ast.Route, body map[string]interface{}) error {
+	return validateCompiledInputWithTypes(route, body, nil)
+}
+
+// validateCompiledInputWithTypes validates against typeDefs (nil: the
+// package-level table).
+func validateCompiledInputWithTypes(route *ast.Route, body map[string]interface{}, typeDefs map[string]ast.TypeDef) error {
+	if typeDefs == nil {
+		typeDefs = compiledTypeDefs
+	}
 	if route.InputType == nil {
 		return nil
 	}
@@ -816,13 +847,13 @@ func validateCompiledInput(route *ast.Route, body map[string]interface{}) error 
 	if !ok {
 		return nil
 	}
-	typeDef, exists := compiledTypeDefs[named.Name]
+	typeDef, exists := typeDefs[named.Name]
 	if !exists {
 		return nil
 	}
 
 	checker := interpreter.NewTypeChecker()
-	checker.SetTypeDefs(compiledTypeDefs)
+	checker.SetTypeDefs(typeDefs)
 	if err := checker.ValidateObjectAgainstTypeDef(body, typeDef); err != nil {
 		return fmt.Errorf("input validation failed: %v", err)
 	}
